@@ -190,6 +190,8 @@ class Result:
                     self.logs.append(line[2:])
                 elif line.startswith('X '):
                     self.exit = int(line[2:])
+                elif line.startswith('F '):
+                    self.outlimit = True
         self.handoffs = []
         self.handoff_codes = []     # exit code the stand-in child was told to use (None: it did not get that far)
         n = 0
@@ -211,6 +213,8 @@ class Result:
             self.fault = stderr[:400]
         elif rc == -14:
             self.fault = 'HANG (alarm)'
+        elif getattr(self, 'outlimit', False):
+            self.fault = 'ENDLESS OUTPUT: the server wrote more than 4 MB of replies in one session'
 
     def output(self):
         return b''.join(self.writes)
